@@ -23,7 +23,7 @@ CONFIG = {
              'the failed build (result, tree, invocations); evaluations = injected runs; '
              'distinct_nontrivial = distinct (program shape, prior step kinds, crash label class, '
              'had-cache?, reused-before-crash?)'),
-    'gates': ['unrepresentable_target_cases', 'ladder_cases', 'many_backup_runs', 'swap_cases', 'swap_cases_rolled_back', 'crash_runs', 'cachewrite_fault_runs', 'crash_after_reuse', 'crash_with_backup'],
+    'gates': ['exit_faults_injected', 'unrepresentable_target_cases', 'ladder_cases', 'many_backup_runs', 'swap_cases', 'swap_cases_rolled_back', 'crash_runs', 'cachewrite_fault_runs', 'crash_after_reuse', 'crash_with_backup'],
 }
 
 NEXT_KINDS = {'result', 'tree', 'extra_invocation', 'query', 'reused_output_rewritten', 'missing_invocation'}
@@ -41,6 +41,8 @@ def run_shard(sh):
     rng = random.Random((sh.seed * 1000003 + sh.idx) & 0xffffffff)
     if sh.idx % 8 == 0:
         many_backups(sh, rng)
+    if sh.idx % 8 == 4:
+        exit_fault_cases(sh, rng)
     if sh.tier != 'quick' and sh.idx == 3:
         many_backups(sh, rng, big=True)
     maxk = 30 if sh.tier == 'quick' else 200
@@ -142,6 +144,48 @@ def run_shard(sh):
             finally:
                 w.discard(tok)
         sh.count('programs')
+
+
+def exit_fault_cases(sh, rng):
+    """removing the private backup area when the call ends is best effort: an OSError there (EBUSY, EACCES, a
+    temp cleaner that was faster) may leave the temp directory behind, but it must not change the OUTCOME of
+    the call - a failed build still re-raises the user's exception object and has restored everything, a
+    successful build still returns its value"""
+    from ..replay import build_kwargs
+    funcs = {'F': {'kind': 'bf', 'idx': 1, 'body': [['q', 'read_text', 'in0', 'M'], ['write', 'new']]}}
+    ok_body = [['bf', 'foreign', 'F', {'catch': False}], ['bf', 'o/x', 'F', {'catch': False}]]
+    program = {'funcs': funcs, 'roots': [ok_body, ok_body + [['raise', 'root']]]}
+    for root_raises in (True, False):
+        for with_prior in (True, False):
+            for code, cls in (('EBUSY', 'OSError'), ('EACCES', 'PermissionError'), ('ENOENT', 'OSError')):
+                with Scratch('x') as sc:
+                    w = World(sc)
+                    w.ext_write('in0', b'input zero')
+                    w.ext_write('foreign', b'a foreign file that the build overwrites')
+                    if with_prior:
+                        sr0 = w.build(program, program['roots'][0], {}, label=0)
+                        if sr0.divs:
+                            continue
+                        w.ext_write('in0', b'changed input')
+                    opts = {'fault': {'k': 1, 'kinds': ['os.rmdir', 'os.remove'], 'phases': ['pre-root', 'root', 'post-root', 'after-api', 'outside'],
+                                      'errno': code, 'cls': cls, 'expect_fail': False, 'in_tmp': True}}
+                    kw = build_kwargs(opts, w)
+                    kw['fault'].realistic = False
+                    ri = 1 if root_raises else 0
+                    sr = w.build(program, program['roots'][ri], {}, label=ri, step_opts=opts, **kw)
+                    sh.evaluations += 1
+                    sh.count('exit_fault_runs')
+                    if kw['fault'].fired is None:
+                        sh.count('exit_fault_not_reached')
+                        continue
+                    sh.count('exit_faults_injected')
+                    sh.nt(('exit-fault', root_raises, with_prior, code))
+                    for d in sr.divs:
+                        if d['kind'] == 'tmp_leftover':
+                            continue        # the removal was made to fail: the leftover is the expected part
+                        if d['kind'] in ROLLBACK_KINDS | {'tree', 'foreign_changed'}:
+                            sh.violation(signature(d) + '|fault-while-removing-backup-area', detail(d), case_of(w, program))
+                            break
 
 
 def many_backups(sh, rng, big=False, variant=None, kinds=None):
